@@ -16,6 +16,7 @@ import (
 	"net/http/httptest"
 	"runtime"
 	"strings"
+	"time"
 
 	"github.com/flamego/flamego"
 )
@@ -131,7 +132,12 @@ func (h *chainHandler) interpret(i int, cur **chainRun, c flamego.Context) {
 		case 'n':
 			c.Next()
 		case 'c':
-			if i%2 == 0 {
+			if i%3 == 2 {
+				// the request context ends by DEADLINE, not by cancel(): a derived context whose deadline has passed
+				ctx, cancel := gocontext.WithDeadline(c.Request().Context(), time.Now().Add(-time.Second))
+				defer cancel()
+				c.Request().Request = c.Request().Request.WithContext(ctx)
+			} else if i%2 == 0 {
 				run.cancel()
 			} else {
 				// the timeout-middleware pattern: the request is replaced by one carrying a derived
@@ -147,6 +153,9 @@ func (h *chainHandler) interpret(i int, cur **chainRun, c flamego.Context) {
 		case 'p':
 			switch a.kind {
 			case 'S':
+				if i%2 == 1 {
+					panicFromUnreadableSource() // same value, raised from a frame whose source file does not exist
+				}
 				panic("a string value")
 			case 'E':
 				panic(chainErr{})
@@ -270,10 +279,14 @@ func execChain(args []string, lines [][]string) []string {
 	// The instance (and its Recovery middleware) is BUILT under the opposite environment and the
 	// session's environment is set just before the first request is served: what the client sees
 	// must depend on the environment at the time of the panic, not at construction time.
+	testEnv := args[0] == "2" // the third environment: like production, nothing of the panic may reach the client
 	setEnv := func(d bool) {
-		if d {
+		switch {
+		case d:
 			flamego.SetEnv(flamego.EnvTypeDev)
-		} else {
+		case testEnv:
+			flamego.SetEnv(flamego.EnvTypeTest)
+		default:
 			flamego.SetEnv(flamego.EnvTypeProd)
 		}
 	}
@@ -291,7 +304,28 @@ func execChain(args []string, lines [][]string) []string {
 		for i := range hs {
 			fns = append(fns, hs[i].handler(i, cur))
 		}
-		f.Use(fns[:nmw]...)
+		// Two harness middleware stand in front of the session's: they log nothing and write nothing for
+		// the session's request, so the chain of the model is unchanged.  The first one serves a NESTED
+		// request for another route through the same instance before the session's chain goes on (a
+		// sub-request, as an internal redirect does): the chain of the outer request must not be touched
+		// by the creation of another request's chain.  Every middleware is registered by its own Use
+		// call, and a transparent one is added when needed, so that the middleware slice has spare
+		// capacity — the configuration in which sharing it between requests shows.
+		probe := "/zz-probe"
+		f.Use(func(c flamego.Context) {
+			if c.Request().URL.Path == probe {
+				c.ResponseWriter().WriteHeader(http.StatusNoContent) // the nested chain stops here
+				return
+			}
+			f.ServeHTTP(httptest.NewRecorder(), httptest.NewRequest(http.MethodGet, probe, nil))
+		})
+		for t := 1 + nmw; t&(t-1) == 0; t++ { // single-element appends: full exactly at the powers of two
+			f.Use(func() {})
+		}
+		for _, fn := range fns[:nmw] {
+			f.Use(fn)
+		}
+		f.Get(probe, func() { (*cur).events = append((*cur).events, "PROBE") }, func() { (*cur).events = append((*cur).events, "PROBE2") })
 		grp := fns[nmw : nmw+ngrp]
 		rt := fns[nmw+ngrp : nmw+ngrp+nrt]
 		switch {
@@ -340,6 +374,9 @@ func execChain(args []string, lines [][]string) []string {
 	return outs
 }
 
+// set once ServeHTTP has failed to return: later requests are not attempted
+var chainHung bool
+
 // serveChain serves one request with the session's method on the instance and renders the observation line.
 func serveChain(f *flamego.Flame, method, path string, cur **chainRun) string {
 	ctx, cancel := gocontext.WithCancel(gocontext.Background())
@@ -348,11 +385,23 @@ func serveChain(f *flamego.Flame, method, path string, cur **chainRun) string {
 	*cur = run
 	spy := &chainSpy{ResponseRecorder: httptest.NewRecorder()}
 	req := httptest.NewRequest(method, path, nil).WithContext(ctx)
+	if chainHung {
+		return "skipped-after-hang"
+	}
 	var esc interface{}
-	func() {
+	done := make(chan struct{})
+	go func() {
+		defer close(done)
 		defer func() { esc = recover() }()
 		f.ServeHTTP(spy, req)
 	}()
+	select {
+	case <-done:
+	case <-time.After(8 * time.Second):
+		// one hang is a verdict already; do not wait again for every later request of the run
+		chainHung = true
+		return "hang (ServeHTTP did not return within 8s)"
+	}
 	dash := func(xs []string) string {
 		if len(xs) == 0 {
 			return "-"
@@ -468,7 +517,11 @@ func genChain(r *rand.Rand, tier string, emit Emit, c15 bool) {
 	next := func(d int) (int, chainLayout) {
 		ls := chainLayouts(d)
 		count++
-		return count % 2, ls[(count/2)%len(ls)]
+		env := count % 2
+		if env == 0 && count%6 == 0 {
+			env = 2 // EnvTypeTest
+		}
+		return env, ls[(count/2)%len(ls)]
 	}
 	mcount := 0
 	nextMethod := func() string {
